@@ -1,8 +1,10 @@
 package main
 
 import (
+	"bytes"
 	"fmt"
 	"os"
+	"path/filepath"
 	"sort"
 	"strings"
 	"sync"
@@ -323,6 +325,18 @@ func suiteV11staged(c *vctx) {
 			a.ref.UpdateUser(u, p)
 			a.ref.Default = 1
 		}
+		if i%3 == 0 {
+			// a large block of auxiliary lines behind the records: every rewrite takes long enough for
+			// another request to fall inside it
+			for _, u := range users {
+				for _, ext := range []string{".user", ".admin"} {
+					fn := filepath.Join(a.dirPath, u+ext)
+					if b, err := os.ReadFile(fn); err == nil {
+						os.WriteFile(fn, append(b, bytes.Repeat([]byte("aux: 0123456789abcdef0123456789abcdef\n"), 60000)...), 0600)
+					}
+				}
+			}
+		}
 		pre := a.users()
 		g := a.installGate()
 		var mu sync.Mutex
@@ -376,7 +390,7 @@ func suiteV11staged(c *vctx) {
 			wait() // the dispatcher is now inside the victim's login (its only queued request)
 		}
 		// 2. queue the family behind it
-		fam := []string{"remove-add", "update", "remove", "setadmin-update", "remove-add-update", "remove-add-admin"}[(i+c.shard)%6]
+		fam := []string{"remove-add", "update", "remove", "setadmin-update", "remove-add-update", "remove-add-admin", "late-setadmin", "late-remove"}[(i+c.shard)%8]
 		var batch []*creq
 		switch fam {
 		case "remove-add":
@@ -403,6 +417,21 @@ func suiteV11staged(c *vctx) {
 		g.mu.Unlock()
 		if !stuck {
 			g.release <- true
+		}
+		if strings.HasPrefix(fam, "late-") {
+			// issued when the internal upgrade's rewrite is under way (its temporary file exists), or
+			// after 60 ms if no rewrite is ever seen
+			for w := 0; w < 120; w++ {
+				if ents, _ := os.ReadDir(filepath.Join(a.dirPath, ".tmp")); len(ents) > 0 {
+					break
+				}
+				time.Sleep(500 * time.Microsecond)
+			}
+			if fam == "late-setadmin" {
+				run(&creq{kind: "setadmin", user: v, admin: true})
+			} else {
+				run(&creq{kind: "remove", user: v})
+			}
 		}
 		done := make(chan bool)
 		go func() { wg.Wait(); close(done) }()
